@@ -43,7 +43,8 @@ type lockCallSite struct {
 	fn     *ast.FuncDecl
 	callee *types.Func
 	pos    token.Pos
-	lvl    int
+	lvl    int // weakest level over the paths reaching the call
+	maxLvl int // strongest level over the paths reaching the call
 }
 
 type lockAnalysis struct {
@@ -59,6 +60,7 @@ type lockAnalysis struct {
 	ownReads map[*types.Func]map[*types.Var]bool // fields read under the function's own lock
 	declOf   map[*types.Func]*ast.FuncDecl
 	unpaired []lockAccess                  // unlock without lock etc. (reported)
+	onlyRecv string // if set, only methods of this receiver type are analysed
 	exitHeld map[*ast.FuncDecl][]token.Pos // returns with lock held and no deferred unlock
 }
 
@@ -137,6 +139,7 @@ func (la *lockAnalysis) analyseFunc(fd *ast.FuncDecl, entryLvl int) {
 		la.accesses[fd] = append(la.accesses[fd], a)
 	}
 	callSeen := map[token.Pos]int{}
+	callMax := map[token.Pos]int{}
 	// selector nodes that are the container of an assignment target (m[k] = v): the write covers them
 	lhsBase := map[ast.Expr]bool{}
 	ast.Inspect(fd.Body, func(n ast.Node) bool {
@@ -221,6 +224,9 @@ func (la *lockAnalysis) analyseFunc(fd *ast.FuncDecl, entryLvl int) {
 				if callee, ok := calleeOf(info, x).(*types.Func); ok {
 					if prev, ok := callSeen[x.Pos()]; !ok || s.lvl < prev {
 						callSeen[x.Pos()] = s.lvl
+					}
+					if s.lvl > callMax[x.Pos()] {
+						callMax[x.Pos()] = s.lvl
 					}
 					_ = callee
 					// own-lock readers make their fields stale for the caller
@@ -311,7 +317,7 @@ func (la *lockAnalysis) analyseFunc(fd *ast.FuncDecl, entryLvl int) {
 		if c, ok := n.(*ast.CallExpr); ok {
 			if lvl, ok := callSeen[c.Pos()]; ok {
 				if callee, ok := calleeOf(info, c).(*types.Func); ok {
-					la.calls[fd] = append(la.calls[fd], lockCallSite{fn: fd, callee: callee, pos: c.Pos(), lvl: lvl})
+					la.calls[fd] = append(la.calls[fd], lockCallSite{fn: fd, callee: callee, pos: c.Pos(), lvl: lvl, maxLvl: callMax[c.Pos()]})
 				}
 			}
 		}
@@ -453,6 +459,9 @@ func (la *lockAnalysis) runMode(ruleLock, ruleAtomic string, constructorNames ma
 	info := la.pkg.TypesInfo
 	decls := []*ast.FuncDecl{}
 	for _, fd := range funcDecls(la.pkg) {
+		if la.onlyRecv != "" && recvTypeName(fd) != la.onlyRecv {
+			continue
+		}
 		decls = append(decls, fd)
 		if o, ok := info.Defs[fd.Name].(*types.Func); ok {
 			la.declOf[o] = fd
@@ -622,6 +631,44 @@ func (la *lockAnalysis) runMode(ruleLock, ruleAtomic string, constructorNames ma
 		}
 	}
 
+	// re-entrant acquisition: a call made while the mutex is held to a function that (transitively,
+	// within the package) acquires the same mutex. sync.RWMutex is not re-entrant: a second RLock
+	// blocks behind a waiting writer, a second Lock always blocks.
+	if !quietAtomic {
+		acquirers := map[*types.Func]bool{}
+		for _, fd := range decls {
+			if la.locks[fd] {
+				if o, ok := info.Defs[fd.Name].(*types.Func); ok {
+					acquirers[o] = true
+				}
+			}
+		}
+		for changed := true; changed; {
+			changed = false
+			for _, fd := range decls {
+				o, _ := info.Defs[fd.Name].(*types.Func)
+				if o == nil || acquirers[o] {
+					continue
+				}
+				for _, cs := range la.calls[fd] {
+					if acquirers[cs.callee] && cs.maxLvl == 0 {
+						// only calls made without the lock propagate "acquires"
+						acquirers[o] = true
+						changed = true
+						break
+					}
+				}
+			}
+		}
+		r.curRule = ruleLock
+		for _, fd := range decls {
+			for _, cs := range la.calls[fd] {
+				if cs.maxLvl > 0 && acquirers[cs.callee] {
+					r.bad(fmt.Sprintf("%s#reentrant:%s", funcKey(la.pkg, fd), cs.callee.Name()), cs.pos, fmt.Sprintf("calls %s, which acquires the mutex again, while holding the %s: sync.RWMutex is not re-entrant and this deadlocks as soon as a writer is waiting", cs.callee.Name(), lvlName(cs.maxLvl)))
+				}
+			}
+		}
+	}
 	if quietAtomic {
 		return
 	}
@@ -629,6 +676,11 @@ func (la *lockAnalysis) runMode(ruleLock, ruleAtomic string, constructorNames ma
 	for _, fd := range decls {
 		if constructorNames[fd.Name.Name] {
 			continue
+		}
+		if o, ok := info.Defs[fd.Name].(*types.Func); ok {
+			if _, isHelper := requires[o]; isHelper {
+				continue // runs inside its callers' critical section
+			}
 		}
 		fk := funcKey(la.pkg, fd)
 		// a function that reads and writes the same guarded map performs a check-then-act
